@@ -68,6 +68,11 @@ def unit(name, **kw):
     res["n_errors"] = vr.get("errors", 0)
     errs = parse_errors(stderr, path)
     res["errors"] = errs
+    if re.search(r"(?m)^error\[E\d+\]", stderr):
+        # a rustc name-resolution / type error in the generated unit: the extraction no longer fits the source
+        # (lost anchor / unsupported construct) - inconclusive, never a violation
+        res["status"] = "tool-error: the extracted unit does not compile (%s)" % re.search(r"(?m)^error\[E\d+\]: (.*)$", stderr).group(1)[:120]
+        return res
     if vr.get("encountered-vir-error") or (vr.get("encountered-error") and not errs and vr.get("errors", 0) == 0):
         res["status"] = "tool-error: verus rejected the unit (unsupported construct)"
         return res
